@@ -9,6 +9,8 @@ for d in seeded/$pat/; do
     id=$(basename "$d")
     [ -f "$d/patch.diff" ] || continue
     props=$(python3 -c "import json;print(' '.join(json.load(open('$d/meta.json'))['breaks']))")
+    if [ -z "$props" ]; then echo "$id NOT-CLAIMED (judged outside the statement; see meta.json)"; continue; fi
+    [ -z "$props" ] && { echo "$id (not claimed: see meta.json)"; continue; }
     if ! git -C /repo apply "$PWD/$d/patch.diff" 2>/dev/null; then echo "$id: patch does not apply"; continue; fi
     for p in $props; do
         out=$(VERIF_SEED=${VERIF_SEED:-0} ./check "$p" quick 2>&1); rc=$?
